@@ -34,10 +34,11 @@ theorem C19_stop_releases (plain tls : Bool) (sched : List LAct)
 
 def isEnding : LifeAct → Option String
   | .cclose id => some id | .rst id => some id | .half id => some id | .quit id => some id | .bad id => some id
-  | .unread id => some id | .halfcr id => some id | .halfbulk id => some id
+  | .unread id => some id | .halfcr id => some id | .halfbulk id => some id | .crash id => some id
   | _ => none
 
-/-- each ending mode (client close, reset, half request then close, QUIT, malformed frame, pipelined requests left unread) removes exactly
+/-- each ending mode (client close, reset, half request then close, QUIT, malformed frame, pipelined requests left unread, a request
+that makes the application's handler panic) removes exactly
 that connection -/
 theorem C19_ending_removes_exactly (cfg : LifeCfg) (s : LifeSt) (a : LifeAct) (id : String) (h : isEnding a = some id) :
     (lifeStepA cfg s a).2.conns = s.conns.filter (fun c => c.1 != id) ∧ (lifeStepA cfg s a).2.running = s.running := by
